@@ -120,6 +120,12 @@ bool set_scalar(V&& dst, const MVal& m, uint8_t strkind, StringArena& arena, Rng
   }
 }
 
+// Values as this build stores them (32-bit JsonFloat rounds every double): applied to each generated operation so that
+// the library-independent generator and model stay exact.
+inline void adapt_op(Op& o) {
+  if (!kUseDouble && (o.k == OpK::Set || o.k == OpK::AddValue)) o.val = stored_form(o.val);
+}
+
 // ----------------------------------------------------------- target access
 
 // Calls f(x) with x = base navigated through the proxy steps (lazy proxies:
